@@ -6,7 +6,13 @@
 //   getat kind idx len     (kind may be f) getter at Index=idx with DataLen=len on the current array     -> value|def idx'
 //   putf p [undef]         float bit patterns (decimal)                                                  -> bytes
 //   getf hex                                                                                              -> pattern | def
-//   qz kind mv ev mp ep    Add…(mv*2^ev, mp*2^ep): front end round(v/precision) against exact rationals  -> near | bytes
+//   qz kind mv ev mp ep    Add…(mv*2^ev, mp*2^ep): bytes where the property determines the code, else        -> bytes | stored
+//   chk kind mv ev mp ep hex   judge of the bytes stored by that qz: within half a step (one step, 8-byte) of the exact
+//                          quotient, or the out-of-range code where that is admissible                    -> ok | bad
+//   chkx kind v hex        the same for an integer v at precision 1, no allowance (after `put 8s v` -> stored) -> ok | bad
+// The property fixes a tolerance, not a rounding policy (8-byte: one step, so truncation and rounding are both fine;
+// exact ties: either neighbour). Where it leaves the code open the op answers `stored` and a chk/chkx line carries the
+// bytes the library produced to the model's judge; the oracle here judges them independently with 128-bit integers.
 // No floating-point text crosses the protocol: integer-valued doubles are printed as exact integers.
 // Oracle (independent of the Lean model, written from the property statement): see the check* functions.
 #include "common.h"
@@ -19,6 +25,10 @@
 using namespace vh;
 static Ctx C;
 typedef unsigned __int128 u128;
+typedef __int128 i128;
+static std::vector<unsigned char> LAST;   // bytes stored by the last put/qz
+static std::string LASTKIND;
+static bool LASTOPEN = false;             // the last put/qz answered `stored`
 
 struct Kind { const char *name; int w; bool s; };
 static const Kind KINDS[] = {{"1s", 1, true}, {"1u", 1, false}, {"2s", 2, true}, {"2u", 2, false}, {"3s", 3, true},
@@ -119,15 +129,16 @@ static void doPut(const Kind &k, double v, double undef, bool explicitUndef) {
            k.w, k.s ? "" : "U", vdStr(v).c_str());
     C.count("put_fault"); return;
   }
-  C.outs(hex(b.data(), b.size()));
+  bool inputNA = (v == undef) || (k.w == 8 && v == N2kDoubleNA);   // the caller's "not available" marker
+  bool oor = std::isnan(v) || std::isinf(v) || (long double)v < loOf(k) || (long double)v >= orOf(k);
+  LAST = b; LASTKIND = k.name; LASTOPEN = (k.w == 8 && !inputNA && !oor);
+  if (LASTOPEN) C.out("stored"); else C.outs(hex(b.data(), b.size()));
   if ((int)b.size() != k.w) { C.fail(kkey(k, "store-length"), "wrote %zu bytes", b.size()); return; }
   uint64_t u = leLoad(b.data(), k.w);
   bool isNA; long double dec = decode(k, u, isNA);
   // read back through the real getter: payload = exactly the bytes written
   tN2kMsg m; m.DataLen = k.w; memcpy(m.Data, b.data(), k.w);
   int idx = 0; double rb = getK(m, k, 1.0, idx, DEF);
-  bool inputNA = (v == undef) || (k.w == 8 && v == N2kDoubleNA);   // the caller's "not available" marker
-  bool oor = std::isnan(v) || std::isinf(v) || (long double)v < loOf(k) || (long double)v >= orOf(k);
   if (inputNA) {
     cls = "na";
     if (!isNA) C.fail(kkey(k, "na-store"), "NA input %s stored as %s", vdStr(v).c_str(), hex(b.data(), b.size()).c_str());
@@ -139,13 +150,13 @@ static void doPut(const Kind &k, double v, double undef, bool explicitUndef) {
       C.fail(kkey(k, "saturate-load"), "out-of-range code reads back as %s", rb == DEF ? "def" : intStr(rb).c_str());
   } else {
     cls = v < 0 ? "neg" : v == 0 ? "zero" : "pos";
-    if (isNA || dec != (long double)v) C.fail(kkey(k, "store"), "%s stored as %s", vdStr(v).c_str(), hex(b.data(), b.size()).c_str());
-    else {
-      double tol = k.w == 8 ? 1.0 : 0.5;   // property: half a step (one step for 8-byte fields), precision = 1
-      if (rb == DEF || idx != k.w || !(std::fabs(rb - v) <= tol))
-        C.fail(kkey(k, "load"), "wrote %s (bytes %s), read back %s idx %d", vdStr(v).c_str(), hex(b.data(), b.size()).c_str(),
-               rb == DEF ? "def" : intStr(rb).c_str(), idx);
-    }
+    // property: within half a step — for an integer value at precision 1 that is the value itself — and within one
+    // step for the 8-byte field; the getter must then return exactly the stored code (times 1.0)
+    long double dd = dec - (long double)v; if (dd < 0) dd = -dd;
+    if (isNA || dd > (k.w == 8 ? 1.0L : 0.0L)) C.fail(kkey(k, "store"), "%s stored as %s", vdStr(v).c_str(), hex(b.data(), b.size()).c_str());
+    else if (rb == DEF || idx != k.w || (long double)rb != (long double)(double)dec)
+      C.fail(kkey(k, "load"), "wrote %s (bytes %s), read back %s idx %d", vdStr(v).c_str(), hex(b.data(), b.size()).c_str(),
+             rb == DEF ? "def" : intStr(rb).c_str(), idx);
   }
   C.count(std::string("put_") + cls);
   C.nontrivial(std::string("put ") + k.name + " " + cls + (explicitUndef ? " undef" : "") + " " +
@@ -269,48 +280,92 @@ static bool qzFeasible(int64_t mv, int ev, int64_t mp, int ep) {
   u128 num = (u128)a << (s > 0 ? s : 0), den = (u128)(uint64_t)mp << (s < 0 ? -s : 0);
   return num / den < ((u128)1 << 62);
 }
+// ---- the property's demand on a stored field, evaluated exactly (128-bit integers), independent of the Lean model.
+// q = (neg ? -1 : 1) * num/den is the exact quotient v/precision. The stored field is admissible iff it is not the NA code and
+//   |code - q| <= T + slack            T = 1/2 step, 1 step for the 8-byte field (the tolerance the property states)
+//   or code == OR and q is within T + slack of an integer outside [min, OR)   (an unrepresentable value saturates)
+// slack = min(|q| * 2^-40, 1) when the quotient went through double arithmetic, 0 for the exact integer stream.
+static i128 decodeI(const Kind &k, uint64_t u) {
+  if (k.s && ((u >> (8 * k.w - 1)) & 1)) return (i128)u - ((i128)1 << (8 * k.w));
+  return (i128)u;
+}
+static bool judgeFeasible(uint64_t a, int s, uint64_t mp) {
+  if (mp == 0 || bitsOf(a) + (s > 0 ? s : 0) > 120 || bitsOf(mp) + (s < 0 ? -s : 0) > 120) return false;
+  u128 num = (u128)a << (s > 0 ? s : 0), den = (u128)mp << (s < 0 ? -s : 0);
+  return num / den < ((u128)1 << 64);
+}
+static bool judge(const Kind &k, bool neg, u128 num, u128 den, bool useSlack, uint64_t bits) {
+  if (bits == orBits(k) + 1) return false;                       // "not available" is never the result of writing a value
+  i128 c = decodeI(k, bits), orc = decodeI(k, orBits(k)), lom1 = (k.s ? -((i128)1 << (8 * k.w - 1)) : (i128)0) - 1;
+  i128 m = (i128)(num / den), N = neg ? -(i128)num : (i128)num, D = (i128)den;
+  i128 lim = (k.w == 8 ? 2 * D : D);                             // 2*T*den
+  if (useSlack) { i128 sl = (i128)(num >> 39); lim += sl < 2 * D ? sl : 2 * D; }
+  auto absI = [](i128 x) { return x < 0 ? -x : x; };
+  auto small = [&](i128 x) { return absI(x) <= m + 3; };          // otherwise x is more than 2 steps from q (and x*den could overflow)
+  if (small(c) && 2 * absI(c * D - N) <= lim) return true;
+  if (c != orc) return false;
+  if (small(orc) && 2 * (orc * D - N) <= lim) return true;       // OR - q <= T + slack
+  if (small(lom1) && 2 * (N - lom1 * D) <= lim) return true;     // q - (min-1) <= T + slack
+  return false;
+}
+
 static void doQz(const Kind &k, int64_t mv, int ev, int64_t mp, int ep) {
   if (!qzFeasible(mv, ev, mp, ep)) { C.out("bad-op"); return; }
   double v = ldexp((double)mv, ev), p = ldexp((double)mp, ep);
   int s = ev - ep; bool neg = mv < 0; uint64_t a = (uint64_t)(neg ? -mv : mv);
   u128 num = (u128)a << (s > 0 ? s : 0), den = (u128)(uint64_t)mp << (s < 0 ? -s : 0);
   u128 m = num / den, rem = num - m * den;
-  bool near; u128 r;
-  if (k.w == 8) { u128 d = rem < den - rem ? rem : den - rem; near = d > 0 && d <= (num >> 40); r = m; }
-  else { u128 d = 2 * rem > den ? 2 * rem - den : den - 2 * rem; near = d > 0 && d <= (num >> 39); r = m + (2 * rem >= den ? 1 : 0); }
-  long double code = neg ? -(long double)(uint64_t)r : (long double)(uint64_t)r;   // exact: r < 2^63
-  bool oor = code < loOf(k) || code >= orOf(k);
+  // is the code left open by the property? 8-byte: always (one step). Others: at an exact tie, or so close to one
+  // (2^-40 relative) that the double quotient may fall on either side. Otherwise exactly one code is within half a step.
+  u128 d = 2 * rem > den ? 2 * rem - den : den - 2 * rem;
+  bool tie = (2 * rem == den), open = k.w == 8 || d <= (num >> 39);
   std::vector<unsigned char> b;
+  LAST.clear(); LASTOPEN = false;
   if (!addGuarded(k, v, p, N2kDoubleNA, b) || (int)b.size() != k.w) { C.out("fault"); C.fail(kkey(k, "front-fault"), "Add aborted"); return; }
-  if (near) C.out("near"); else C.outs(hex(b.data(), b.size()));
-  bool isNA; long double dec = decode(k, leLoad(b.data(), k.w), isNA);
-  // the code the exact rounding gives, after saturation; near a boundary the neighbouring codes are tolerated
-  auto sat = [&](long double c) { return (c < loOf(k) || c >= orOf(k)) ? orOf(k) : c; };
-  long double expect = sat(code);
-  bool okCode = !isNA && (dec == expect || (near && (dec == sat(code - 1) || dec == sat(code + 1))));
+  LAST = b; LASTKIND = k.name; LASTOPEN = open;
+  if (open) C.out("stored"); else C.outs(hex(b.data(), b.size()));
+  uint64_t bits = leLoad(b.data(), k.w);
+  bool okCode = judge(k, neg, num, den, true, bits);
   if (!okCode)
-    C.fail(std::string("C06:front:") + k.name, "v=%lld*2^%d p=%lld*2^%d: exact code %s, stored %s", (long long)mv, ev, (long long)mp, ep,
-           intStr((double)expect).c_str(), hex(b.data(), b.size()).c_str());
-  // the statement itself: read back with the same resolution, within half a step (one step for 8 bytes).
-  // Two links, keyed separately: the getter must return (stored code)*precision, and that must be close to v.
-  if (okCode && dec != orOf(k)) {
+    C.fail(std::string("C06:front:") + k.name, "v=%lld*2^%d p=%lld*2^%d (|v/p| = %s + %s/%s): stored %s is not within %s of it",
+           (long long)mv, ev, (long long)mp, ep, intStr((double)(uint64_t)m).c_str(), intStr((double)rem).c_str(), intStr((double)den).c_str(),
+           hex(b.data(), b.size()).c_str(), k.w == 8 ? "one step" : "half a step");
+  // the getter must return (stored code)*precision
+  bool isNA; long double dec = decode(k, bits, isNA);
+  if (okCode) {
     tN2kMsg msg; msg.DataLen = k.w; memcpy(msg.Data, b.data(), k.w);
     int idx = 0; double rb = getK(msg, k, p, idx, NAN);
     double want = (double)dec * p;
     if (!(std::fabs(rb - want) <= std::fabs(want) * ldexp(1.0, -40)) || idx != k.w)
       C.fail(kkey(k, "load"), "bytes %s (code %s) read back with precision %lld*2^%d as a different value", hex(b.data(), b.size()).c_str(),
              intStr((double)dec).c_str(), (long long)mp, ep);
-    double tol = (k.w == 8 ? p : p / 2) * (1 + ldexp(1.0, -30)) + std::fabs(v) * ldexp(1.0, -39);
-    if (!(std::fabs(want - v) <= tol)) C.fail(std::string("C06:quantise:") + k.name, "v=%lld*2^%d p=%lld*2^%d: stored code is off by more than the tolerance", (long long)mv, ev, (long long)mp, ep);
   }
-  C.count(near ? "qz_near_boundary_tolerated" : oor ? "qz_saturated" : (2 * rem == den && k.w != 8) ? "qz_exact_tie" : "qz_plain");
-  C.nontrivial(std::string("qz ") + k.name + " " + std::to_string(mp) + " " + std::to_string((long long)((uint64_t)r & 0x3ff)) + (neg ? "n" : "p"));
+  C.count(k.w == 8 ? "qz_8byte_judged" : tie ? "qz_exact_tie_judged" : open ? "qz_near_tie_judged" : bits == orBits(k) ? "qz_saturated" : "qz_plain");
+  C.nontrivial(std::string("qz ") + k.name + " " + std::to_string(mp) + " " + std::to_string((long long)((uint64_t)m & 0x3ff)) + (neg ? "n" : "p"));
+}
+
+// chk / chkx: the bytes the library stored (carried in the op line for the model) judged against the exact quotient
+static void doChk(const Kind &k, int64_t mv, int ev, int64_t mp, int ep, bool useSlack, const std::vector<unsigned char> &b, const char *failKey) {
+  int s = ev - ep; bool neg = mv < 0; uint64_t a = neg ? (uint64_t)0 - (uint64_t)mv : (uint64_t)mv;
+  if (mp <= 0 || (int)b.size() != k.w || !judgeFeasible(a, s, (uint64_t)mp)) { C.out("bad-op"); return; }
+  u128 num = (u128)a << (s > 0 ? s : 0), den = (u128)(uint64_t)mp << (s < 0 ? -s : 0);
+  bool ok = judge(k, neg, num, den, useSlack, leLoad(b.data(), k.w));
+  C.out(ok ? "ok" : "bad");
+  if (!ok) C.fail(failKey, "v=%lld*2^%d p=%lld*2^%d: stored %s is not within %s of v/p", (long long)mv, ev, (long long)mp, ep,
+                  hex(b.data(), b.size()).c_str(), k.w == 8 ? "one step" : "half a step");
+  C.count(ok ? "chk_ok" : "chk_bad");
 }
 
 // ---------------------------------------------------------------------------------------------- exec
-static void exec(const std::string &line) {
-  C.op("%s", line.c_str());
+static void exec(const std::string &line0) {
+  std::string line = line0;
   std::vector<std::string> w = split(line);
+  // replay: a recorded chk/chkx line carries the bytes of the run that recorded it; judge what THIS build stored
+  if (!C.replay.empty() && !w.empty() && (w[0] == "chk" || w[0] == "chkx") && w.size() > 2 && !LAST.empty() && w[1] == LASTKIND) {
+    w.back() = hex(LAST.data(), LAST.size()); line.clear();
+    for (auto &t : w) line += (line.empty() ? "" : " ") + t;
+  }
+  C.op("%s", line.c_str());
   if (w.empty()) { C.out("bad-op"); return; }
   C.count("op_" + w[0]);
   const Kind *k = w.size() > 1 ? kindOf(w[1]) : nullptr;
@@ -327,14 +382,23 @@ static void exec(const std::string &line) {
   else if (w[0] == "putf" && (w.size() == 2 || w.size() == 3)) {
     C.cases++; doPutF((uint32_t)strtoul(w[1].c_str(), nullptr, 10), w.size() == 3 ? (uint32_t)strtoul(w[2].c_str(), nullptr, 10) : patOf(N2kFloatNA));
   } else if (w[0] == "getf" && w.size() == 2) { C.cases++; doGetF(unhex(w[1])); }
+  else if (w[0] == "chk" && k && w.size() == 7)
+    doChk(*k, strtoll(w[2].c_str(), nullptr, 10), atoi(w[3].c_str()), strtoll(w[4].c_str(), nullptr, 10), atoi(w[5].c_str()), true, unhex(w[6]),
+          (std::string("C06:front:") + k->name).c_str());
+  else if (w[0] == "chkx" && k && w.size() == 4) doChk(*k, strtoll(w[2].c_str(), nullptr, 10), 0, 1, 0, false, unhex(w[3]), kkey(*k, "store").c_str());
   else if (w[0] == "qz" && k && w.size() == 6) {
     C.cases++; doQz(*k, strtoll(w[2].c_str(), nullptr, 10), atoi(w[3].c_str()), strtoll(w[4].c_str(), nullptr, 10), atoi(w[5].c_str()));
   } else C.out("bad-op");
 }
 
 // ---------------------------------------------------------------------------------------------- generators
-static void put(const Kind &k, double v) { exec(std::string("put ") + k.name + " " + vdStr(v)); }
-static void putU(const Kind &k, double v, double u) { exec(std::string("put ") + k.name + " " + vdStr(v) + " " + vdStr(u)); }
+// after a put that answered `stored` (8-byte, value in range): hand the bytes the library stored to the judge
+static void chkxLast(const Kind &k, double v) {
+  if (LASTOPEN && !LAST.empty()) exec(std::string("chkx ") + k.name + " " + vdStr(v) + " " + hex(LAST.data(), LAST.size()));
+  LASTOPEN = false;
+}
+static void put(const Kind &k, double v) { LASTOPEN = false; exec(std::string("put ") + k.name + " " + vdStr(v)); chkxLast(k, v); }
+static void putU(const Kind &k, double v, double u) { LASTOPEN = false; exec(std::string("put ") + k.name + " " + vdStr(v) + " " + vdStr(u)); chkxLast(k, v); }
 static void get(const Kind &k, uint64_t u, int n) {
   unsigned char b[8]; for (int i = 0; i < 8; i++) b[i] = (unsigned char)(u >> (8 * i));
   exec(std::string("get ") + k.name + " " + hex(b, (size_t)n));
@@ -343,7 +407,11 @@ static void qz(const Kind &k, double v, double p) {
   if (!std::isfinite(v) || v == N2kDoubleNA) return;
   int64_t mv, mp; int ev, ep; decomp(v, mv, ev); decomp(p, mp, ep);
   if (!qzFeasible(mv, ev, mp, ep)) { C.count("qz_skipped_infeasible"); return; }
-  char b[200]; snprintf(b, sizeof b, "qz %s %lld %d %lld %d", k.name, (long long)mv, ev, (long long)mp, ep); exec(b);
+  char b[200]; snprintf(b, sizeof b, "qz %s %lld %d %lld %d", k.name, (long long)mv, ev, (long long)mp, ep);
+  LAST.clear(); exec(b);
+  if (!LAST.empty()) {   // the stored bytes go to the judge (model: acceptsQ; here: judge())
+    snprintf(b, sizeof b, "chk %s %lld %d %lld %d ", k.name, (long long)mv, ev, (long long)mp, ep); exec(std::string(b) + hex(LAST.data(), LAST.size()));
+  }
 }
 // doubles around a centre: c-3 … c+3, and the neighbouring doubles where 1 is below the spacing
 static void around(const Kind &k, long double c) {
@@ -359,7 +427,7 @@ int main(int argc, char **argv) {
   C.init(argc, argv);
   signal(SIGPIPE, SIG_IGN);
   C.rule = "case = one field written and read back / one getter call; non-trivial = all but refused op lines; distinct = "
-           "(kind, value class, low byte, magnitude) for put/get, (kind, offset, length) for getat, (kind, resolution, code bits, sign) for qz";
+           "(kind, value class, low byte, magnitude) for put/get, (kind, offset, length) for getat, (kind, resolution, code bits, sign) for qz; chk/chkx lines re-judge the bytes of the preceding qz/put";
   if (patOf(N2kFloatNA) != 0xCE6E6B28u) C.fail("C06:harness:floatNA-pattern", "N2kFloatNA is %08x", patOf(N2kFloatNA));
   if (!C.replay.empty()) { for (auto &l : readLines(C.replay)) exec(l); workerStop(); C.finish(); return 0; }
   Rng R(C.seed);
@@ -460,7 +528,7 @@ int main(int argc, char **argv) {
       qz(k, 0.0, p); qz(k, -0.0, p); qz(k, p / 2, p); qz(k, -p / 2, p); qz(k, p * 0.125, p); qz(k, 0.125, p);
     }
     C.sample("front end: 21 resolution literals (1e-16 … 3600) x 9 kinds x codes at min / OR / zero / random, fractions 0, +-0.5 (ties), "
-             "near-ties, random; negated; compared with exact 128-bit rational rounding");
+             "near-ties, random; negated; stored bytes judged against the exact quotient (128-bit rationals) with the property's tolerance");
   }
   workerStop();
   C.finish();
